@@ -40,6 +40,26 @@ CHECKS = {
   text="Random call histories on MuSig2 secret nonces (ecc.musig2.sign and psbt.musig2.partial_sign), on dsa/ssa Signer and SoftwareSigner objects (incl. the KeyManager face) and on every wallet kind are recorded at the client boundary and checked after every step against small sequential models (at most one successful signature per nonce and a zeroed nonce afterwards; no signature from a dead signer; next_address = lowest index above all handed out, ledger ordered and duplicate-free). A battery of ~300 pure calls is re-answered in shuffled order, after cache clears and overflows, across backend switches and from 4-8 threads under seeded yield injection with a backend-toggling thread; every answer must equal the quiet-process one. Evidence reports switches, switch points and distinct schedules observed.",
   note="Trusted base: the sequential models in rv/props/c20.py; CPython's GIL makes statement-level interleaving the granularity reached; interleavings inside the bindings' C calls are not controllable. A caller copying a secret nonce before use is out of scope.",
   ref="DESIGN.md section 3 C20"),
+ "C03": dict(
+  technique="runtime monitoring: reference-model monitor (BIP340 reference.py transcription over the independent EC model), exhaustive toy-curve verification, batch compositions incl. cancelling pairs, both arms",
+  text="Every BIP340 signature produced (sign_, sign, Signer, sign-to-contract) is compared byte for byte at run time with the BIP's reference signer for messages of any length, keys of both parities and aux classes on both arms; every verify_ verdict with the BIP340 equation (never an exception), exhaustively over (x, r, s) on toy curves; batch_verify_ with the conjunction of single verdicts for sizes on both sides of the Bos-Coster switch, one bad member at every position and cancelling pairs that only random coefficients detect.",
+  note="Trusted base: rv/ref/bip340.py over rv/ref/ec.py (19/19 BIP340 csv vectors in every shard). On other curves/hash functions the challenge comes from the library's own challenge_ and only the algebra is independent. Batch soundness is probabilistic by design (2^-256); refuted constructively only.",
+  ref="DESIGN.md section 3 C03"),
+ "C05": dict(
+  technique="runtime monitoring: round-trip monitors on generated objects and structure-aware mutants for every introspected parse/serialize or to_dict/from_dict class, independent transaction and PSBT-map readers as oracles for size/id and key-value preservation",
+  text="The class registry is rebuilt by introspection on every run (60 classes; an uncovered class makes the run inconclusive). For each class generated objects must satisfy parse(serialize(x)) == x (check_validity on and off) and the JSON round trip; every byte string the parser accepts among generated encodings, vendored samples and their structure-aware mutants (truncation, extension, non-minimal CompactSize, count and marker edits, duplicate/reordered/unknown PSBT keys) must re-serialize to itself (PSBT: fixed point + no (map,key,value) pair lost, judged by an independent map reader); Tx/Block size, weight, vsize, txid, wtxid must equal those computed from the bytes by an independent reader.",
+  note="Trusted base: rv/ref/txcodec.py, rv/ref/psbtmap.py (self-tested on published samples); rv/ref/wirefmt.py only produces encodings for mutation and never decides a verdict. Five deliberate or model-level PSBT pair losses are listed as known findings.",
+  ref="DESIGN.md section 3 C05"),
+ "C10": dict(
+  technique="runtime monitoring: end-to-end execution monitor (descriptor -> PSBT -> sign -> finalize -> extract) judged by the library's engine and by the independent Core model, plus a hash-type commitment table driving single-field tampering",
+  text="Random key trees x 22 descriptor shapes x 1..6 mixed inputs x per-input hash types x PSBT v0/v2 x two signer entry points are run through the library's own roles; the extracted transaction must be accepted by verify_transaction (standard flags) and by rv/ref/core.py. Every single-field edit of the finished transaction (amounts, scripts, sequences, lock time, version, prevouts, spent amounts and scripts, outputs added/removed) is classified by what the inputs' hash types commit to: committed => both must reject; uncommitted => engine == Core model. BIP322, BMS and KeyWallet message signatures must verify for their own address and for no other key, message or address type.",
+  note="Trusted base: rv/ref/core.py (validated on Core's vectors) and the commitment table in rv/props/c10.py (a table/model disagreement is INCONCLUSIVE, not a violation).",
+  ref="DESIGN.md section 3 C10"),
+ "C17": dict(
+  technique="runtime monitoring: reference-model monitor (transcriptions of Core's merkle.cpp, BIP158/SipHash, arith_uint256 / pow.cpp), exhaustive over compact-bits patterns, fault injection (weakened SipHash) for short-id collisions",
+  text="Merkle roots, branches (every index, every wrong leaf/index, single-bit tampers), duplicated-tail mutation reports, block validity under root/commitment/coinbase edits, BIP158 filters (match, decode, bytes equal to the reference), compact-block reconstruction over superset/shuffled/colliding pools, compact target encode/decode, retargeting and work are compared at run time with independent transcriptions of Core's integer arithmetic.",
+  note="Trusted base: rv/ref/merkle.py, gcs.py, arith256.py self-tested on blocks 200000/481824, checkblock vectors, siphash.json, blockfilters.json and Core's arith_uint256/pow vectors. A generated block the reference holds valid but the library refuses is INCONCLUSIVE (the property says 'valid only if').",
+  ref="DESIGN.md section 3 C17"),
 }
 
 def main():
